@@ -444,7 +444,7 @@ if __name__ == '__main__':
                      'operator bool first)',
                      'payload move constructors do not throw; allocators do not throw'],
         rule='sequences over a pool of 3 wrappers: exhaustive depth 1 (all 8 allocator-trait '
-             'configurations × 9×9 initial contents × 38 mutators), depth 2 and 3 seeded sub-samples '
+             'configurations × 9×9 initial contents × 40 mutators), depth 2 and 3 seeded sub-samples '
              '(depth 2 complete for one seed-chosen configuration in the thorough tier), each mutator followed by '
              'get on every slot; seeded random sequences of length 5..200; distinct = (op kind, '
              'event-kind string, outcome)',
